@@ -648,6 +648,46 @@ func ruleRegionsInfoDiscipline(c *Ctx) {
 		}
 	}
 	c.Check(n == 4, rule, fnName(sub), "removes from all four role sub-trees of every peer's store", P.pos(sub.Pos()), fmt.Sprintf("%d of 4", n))
+	// … for every peer that can be filed there: leaders and followers hold voters, learners hold learners, pending
+	// peers hold either. The loops the removals sit in must range over a peer list that covers those classes
+	// (all peers cover both), and remove in every iteration.
+	needs := map[string][]string{"leaders": {"voters"}, "followers": {"voters"}, "learners": {"learners"}, "pendingPeers": {"voters", "learners"}}
+	covers := map[string][]string{"GetPeers": {"voters", "learners"}, "GetVoters": {"voters"}, "GetLearners": {"learners"}}
+	for _, m := range []string{"leaders", "followers", "learners", "pendingPeers"} {
+		f := P.Field("server/core", "RegionsInfo", m)
+		got := map[string]bool{}
+		for _, l := range loopsOf(sub) {
+			// the list this loop ranges over
+			src := ""
+			for b := range l.blocks {
+				for _, ins := range b.Instrs {
+					if ia, ok := ins.(*ssa.IndexAddr); ok {
+						if cl, _ := callOf(ia.X); cl != nil && cl.Call.StaticCallee() != nil {
+							if _, known := covers[cl.Call.StaticCallee().Name()]; known {
+								src = cl.Call.StaticCallee().Name()
+							}
+						}
+					}
+				}
+			}
+			if src == "" {
+				continue
+			}
+			if everyIterationCalls(l, func(x ssa.Instruction) bool {
+				ci, ok := x.(ssa.CallInstruction)
+				return ok && rmTree.Match(ci.Common()) && derivesFrom(ci.Common().Args[0], loadOfField(f), 4)
+			}) {
+				for _, cls := range covers[src] {
+					got[cls] = true
+				}
+			}
+		}
+		okCov := true
+		for _, cls := range needs[m] {
+			okCov = okCov && got[cls]
+		}
+		c.Check(okCov, rule, "peers whose store's "+m+" sub-tree is cleaned in "+fnName(sub), "every peer that can be filed in the sub-tree ("+strings.Join(needs[m], " and ")+") has the region removed from its store's sub-tree", P.pos(sub.Pos()), fmt.Sprintf("covered: %v", got))
+	}
 	// BasicCluster wraps every RegionsInfo mutator in its write lock
 	bcLock := P.Field("server/core", "BasicCluster", "RWMutex")
 	for _, m := range []string{"SetRegion", "RemoveRegion"} {
